@@ -10,6 +10,8 @@
                           GetSessionByPublicId, the resume branch of processHello,
                           the id part of processRegister and removeSession
      lru.go               LruCache Set / Get / Remove
+     hub.go               NewHub: the key set a hub runs with, from the options hashkey and
+                          blockkey of section [sessions] (config_keyset, at the end of the file)
    Base64 is concrete (lib/B64.v).  HMAC-SHA256, protobuf and AES-CTR are
    oracles (fields of [oracles]); nothing is assumed about them here.
    No proofs in this file. *)
@@ -340,3 +342,20 @@ Arguments hub : clear implicits.
 Arguments hop : clear implicits.
 Arguments hout : clear implicits.
 Arguments lru : clear implicits.
+
+(* ---- hub.go NewHub: the key set of a hub ------------------------------------------------------
+   hashKey  := [sessions] hashkey   used as configured (a length other than 32 / 64 bytes only
+                                    logs a warning)
+   blockKey := [sessions] blockkey  absent or empty: no block key, ids are signed only;
+                                    16, 24 or 32 bytes (AES-128 / -192 / -256): exactly these
+                                    bytes are the block key of the codec; any other length:
+                                    NewHub fails.
+   Lengths are byte lengths (Go's len of a string).  Keys are their own bytes here. *)
+Definition block_key_length_ok (n : nat) : bool := Nat.eqb n 16 || Nat.eqb n 24 || Nat.eqb n 32.
+Definition config_keyset (hashkey blockkey : bytes) : option (keyset bytes bytes) :=
+  match blockkey with
+  | [] => Some {| hk := hashkey; bk := None |}
+  | _ => if block_key_length_ok (List.length blockkey)
+         then Some {| hk := hashkey; bk := Some blockkey |}
+         else None
+  end.
